@@ -543,6 +543,15 @@ pub fn drop_reuse(r: &mut Rng, n1: usize, n2: usize, payload_len: usize, witness
                 return false;
             }
         };
+        // a third of the runs checkpoint while the second tree is still empty: its root came from the free list and
+        // nothing has touched it since; it must survive the round trip through the data file
+        if r.chance(1, 3) {
+            if let Err(e) = pager.flush() {
+                fail("flush-failed", e);
+                return false;
+            }
+            report::count("checkpoints_over_untouched_recycled_root", 1);
+        }
         for _ in 0..n2 {
             let k = r.below(1_000_000);
             if let Err(e) = b.upsert(&[VKey::U(k)], &vec![b'w'; payload_len]) {
